@@ -23,15 +23,18 @@ def up (lt : α → α → Bool) : Nat → Array α → Nat → Array α
       if lt a[j] a[i] then up lt fuel (a.swap i j h.2 h.1) i else a
     else a
 
+/-- the smaller child of `i` among the first `n` slots (the left one on ties), as `down` picks it -/
+def child (lt : α → α → Bool) (a : Array α) (i n : Nat) : Nat :=
+  if h : 2 * i + 2 < n ∧ 2 * i + 2 < a.size then (if lt a[2 * i + 2] a[2 * i + 1] then 2 * i + 2 else 2 * i + 1)
+  else 2 * i + 1
+
 /-- `heap.down(h, i, n)` (the boolean result is not used by Push/Pop) -/
 def down (lt : α → α → Bool) : Nat → Array α → Nat → Nat → Array α
   | 0, a, _, _ => a
   | fuel + 1, a, i, n =>
-    let j1 := 2 * i + 1
-    if h : j1 < n ∧ n ≤ a.size then
-      let j := if h2 : j1 + 1 < n then (if lt a[j1 + 1] a[j1] then j1 + 1 else j1) else j1
-      if hj : j < a.size ∧ i < a.size then
-        if lt a[j] a[i] then down lt fuel (a.swap i j hj.2 hj.1) j n else a
+    if 2 * i + 1 < n ∧ n ≤ a.size then
+      if hj : child lt a i n < a.size ∧ i < a.size then
+        if lt a[child lt a i n] a[i] then down lt fuel (a.swap i (child lt a i n) hj.2 hj.1) (child lt a i n) n else a
       else a
     else a
 
